@@ -53,6 +53,7 @@ type Request struct {
 	Identity string // endpoint + canonical parameters
 	Form     url.Values
 	Ctx      context.Context
+	ConnTag  any // what the dial hook attached to this request's connection (simnet.ConnTagKey)
 
 	ArriveSeq  int64
 	EndSeq     int64  // 0 while in flight
@@ -160,7 +161,7 @@ func (srv *Server) ServeHTTP(w http.ResponseWriter, r *http.Request) {
 	srv.nextID++
 	req := &Request{
 		ID: srv.nextID, Upstream: srv.Index, Ord: srv.ord, Endpoint: endpoint, Identity: ident,
-		Form: r.Form, Ctx: r.Context(), ArriveSeq: srv.S.Seq(), ArriveTime: time.Now(),
+		Form: r.Form, Ctx: r.Context(), ConnTag: r.Context().Value(simnet.ConnTagKey), ArriveSeq: srv.S.Seq(), ArriveTime: time.Now(),
 	}
 	srv.ord++
 	srv.Log = append(srv.Log, req)
@@ -276,9 +277,15 @@ func writeJSONErr(w http.ResponseWriter, code int, typ, msg string) {
 
 // Start serves on the simulated network (inside the bubble).
 func (srv *Server) Start(n *simnet.Net, onDial func(k int) simnet.DialAction) {
+	srv.StartCtx(n, onDial, nil)
+}
+
+// StartCtx is Start with an attributing dial hook (see simnet.Host.OnDialCtx).
+func (srv *Server) StartCtx(n *simnet.Net, onDial func(k int) simnet.DialAction, onDialCtx func(k int, op any) (simnet.DialAction, any)) {
 	h := n.Listen(srv.Host)
 	h.OnDial = onDial
-	srv.hs = &http.Server{Handler: srv}
+	h.OnDialCtx = onDialCtx
+	srv.hs = &http.Server{Handler: srv, ConnContext: simnet.ConnContext}
 	go func() { _ = srv.hs.Serve(h.L) }()
 }
 
